@@ -101,7 +101,11 @@ impl DeweyVersion {
             let numstr: String =
                 slice.chars().take_while(char::is_ascii_digit).collect();
             if !numstr.is_empty() {
-                version.push(numstr.parse::<i64>().unwrap());
+                /*
+                 * Only digits, so the only possible failure is a value that
+                 * does not fit, in which case saturate.
+                 */
+                version.push(numstr.parse::<i64>().unwrap_or(i64::MAX));
                 idx += numstr.len();
                 continue;
             }
